@@ -55,6 +55,14 @@ var txDests = []txDest{
 	{"http://hny0.sim", "key1", "ds"},
 	{"http://hny1.sim", "key0", "ds"},
 	{"http://hny1.sim:8443", "key2", "ünï"},
+	// destinations that differ, but whose parts run into each other when written
+	// one after another, with or without a separator
+	{"http://hny0.sim", "team-1", "23-web"},
+	{"http://hny0.sim", "team-12", "3-web"},
+	{"http://hny0.sim", "k/", "d"},
+	{"http://hny0.sim", "k", "/d"},
+	{"http://hny0.sim", "k,d", "x"},
+	{"http://hny0.sim", "k", "d,x"},
 }
 
 var txBehaviours = []string{"ok", "ok_msgpack", "short", "event_errors", "undecodable", "400", "500", "401", "429", "503", "429_ra0", "429_ra_big", "429_ra_neg", "429_ra_date", "503_ra_frac", "timeout", "slow_ok", "connerr"}
@@ -76,7 +84,19 @@ func genTransmit(r *Rng, tier string, p *Plan) {
 	if tier == "thorough" {
 		n = r.Range(1, 80)
 	}
-	nd := r.Range(1, len(txDests))
+	// a random subset of the destinations, so that the look-alike ones meet
+	nd := r.Range(1, 5)
+	var pick []int
+	if r.Bool(0.3) {
+		// a look-alike pair
+		k := 5 + 2*r.Intn(3)
+		pick = []int{k, k + 1}
+		nd = 2
+	} else {
+		for len(pick) < nd {
+			pick = append(pick, r.Intn(len(txDests)))
+		}
+	}
 	big := r.Bool(0.15)
 	now := int64(0)
 	bt := p.N["batch_timeout_us"]
@@ -85,7 +105,7 @@ func genTransmit(r *Rng, tier string, p *Plan) {
 		p.N["max_batch"] = 500
 		k := r.Range(13, 18)
 		for i := 0; i < k; i++ {
-			p.Add(Op{K: "ev", At: 0, I: 0, N: int64(PickOf(r, 400_000, 400_000, 700_000, 999_000)), M: 1})
+			p.Add(Op{K: "ev", At: 0, I: int64(pick[0]), N: int64(PickOf(r, 400_000, 400_000, 700_000, 999_000)), M: 1})
 		}
 	}
 	for i := 0; i < n; i++ {
@@ -94,7 +114,7 @@ func genTransmit(r *Rng, tier string, p *Plan) {
 		if big {
 			pad = int64(PickOf(r, 10, 400_000, 400_000, 999_000, 999_900, 1_000_100, 1_200_000))
 		}
-		p.Add(Op{K: "ev", At: now, I: int64(r.Intn(nd)), N: pad, M: int64(PickOf(r, 0, 1, 7, 1<<31-1))})
+		p.Add(Op{K: "ev", At: now, I: int64(pick[r.Intn(nd)]), N: pad, M: int64(PickOf(r, 0, 1, 7, 1<<31-1))})
 	}
 	if r.Bool(0.25) && now > 0 {
 		// senders held up for a while: batches taken off the pending list wait to
